@@ -125,9 +125,9 @@ class _Canon(ast.NodeTransformer):
         b, o = node.body, node.orelse
         if len(b) == 1 and len(o) == 1:
             x, y = b[0], o[0]
-            if isinstance(x, ast.Assign) and isinstance(y, ast.Assign) and len(x.targets) == 1 and len(y.targets) == 1 \
-                    and _norm(x.targets[0]) == _norm(y.targets[0]) and isinstance(x.targets[0], (ast.Name, ast.Attribute, ast.Subscript, ast.Tuple)):
-                return _loc(ast.Assign(targets=[x.targets[0]], value=_ifexp(node.test, x.value, y.value)), node)
+            if isinstance(x, ast.Assign) and isinstance(y, ast.Assign) and len(x.targets) == len(y.targets) \
+                    and [_norm(t) for t in x.targets] == [_norm(t) for t in y.targets] and all(isinstance(t, (ast.Name, ast.Attribute, ast.Subscript, ast.Tuple)) for t in x.targets):
+                return _loc(ast.Assign(targets=list(x.targets), value=_ifexp(node.test, x.value, y.value)), node)
             if isinstance(x, ast.Return) and isinstance(y, ast.Return) and x.value is not None and y.value is not None:
                 return _loc(ast.Return(value=_ifexp(node.test, x.value, y.value)), node)
             if isinstance(x, ast.Expr) and isinstance(y, ast.Expr):
